@@ -573,6 +573,15 @@ class DataFileManager:
         }
 
         for i, record in enumerate(records):
+            # pyarrow looks a column's value up under the column's NAME, a str: a
+            # value filed under any other key (1 for a column named "1") passed
+            # the test below through str(k) and was then silently stored as NULL.
+            not_names = [k for k in record.keys() if not isinstance(k, str)]
+            if not_names:
+                raise ValueError(
+                    f"Record {i} has keys that are not strings: {not_names!r}. Field names "
+                    f"are strings; the values under these keys would be silently dropped."
+                )
             unknown = {str(k) for k in record.keys()} - allowed
             if unknown:
                 raise ValueError(
